@@ -186,6 +186,7 @@ func checkC07(c *Ctx) {
 	c07ReconnectPaced(c, fns)
 	c07OnceComplete(c, fns)
 	c07SendVsClose(c, fns)
+	c06IndexGuard(c, fns, "R-index-guard")
 
 	// ---- R-closed-recv
 	closedFields := map[string]bool{}
